@@ -756,12 +756,12 @@ fn expand(cfg: &Cfg, mode: Mode, tier: Tier, hist: &Vec<Step>, report: &mut Repo
 pub fn configs(mode: Mode, tier: Tier) -> Vec<(Cfg, usize)> {
     // (configuration, depth bound; usize::MAX = to closure)
     let mut v = Vec::new();
-    let caps: &[usize] = &[8, 48];
+    let caps: &[usize] = tier.pick(&[8, 48][..], &[8, 13, 48][..]);
     let fails: Vec<Fail> = if mode == Mode::C14 {
         vec![Fail::None, Fail::PanicAt(0), Fail::PanicAt(1), Fail::ErrOnce(0)]
     } else {
         let mut f = vec![Fail::None];
-        for j in 0..3 {
+        for j in 0..tier.pick(3, 5) {
             f.push(Fail::ErrOnce(j));
             f.push(Fail::ErrFrom(j));
             f.push(Fail::ZeroOnce(j));
